@@ -199,6 +199,10 @@ func (t *ctype) String() string {
 		return "map[" + t.key.String() + "]" + t.elem.String()
 	case "set":
 		return "set[" + t.elem.String() + "]"
+	case "seq":
+		return "seq[" + t.elem.String() + "]"
+	case "func":
+		return "func"
 	}
 	return "?"
 }
@@ -431,11 +435,11 @@ func (p *cparser) parseType() *ctype {
 		p.expect("]")
 		return &ctype{kind: "map", key: k, elem: p.parseType()}
 	}
-	if name == "set" {
+	if name == "set" || name == "seq" {
 		p.expect("[")
 		k := p.parseType()
 		p.expect("]")
-		return &ctype{kind: "set", elem: k}
+		return &ctype{kind: name, elem: k}
 	}
 	for p.isOp(".") {
 		p.next()
